@@ -9,7 +9,7 @@ Lemma step_hb sess me alt nd a res :
   AInv sess a ->
   thread_step me RHb alt nd a (get_thr a RHb) = res ->
   match res with
-  | Ok (nd', a', t') => AInv sess (set_thr a' RHb t') /\ node_frame nd nd'
+  | Ok (nd', a', t') => (AInv sess (set_thr a' RHb t') /\ delta me RHb a nd nd' (set_thr a' RHb t')) /\ node_frame nd nd'
   | Blocked => True
   | Panic site => cclosed (n_pcd nd) = true /\ site = "send on closed channel"%string
   end.
